@@ -40,6 +40,40 @@ Supported subset (see ``Fn`` below; everything else raises ``Unsupported``):
                ``re.match(<literal>, s)`` / ``<compiled global>.search(s)`` for the pattern texts the run-time has a
                matcher for, reads of the world outside (``EXTERNAL_READS``/``EXTERNAL_CALLS``/``EXTERNAL_HASATTR``: the
                function then takes the environment table ``PyRt.Env`` as its first parameter)
+Extensions for markers / _parser / metadata / licenses (x3; the handlers are the `x3_*` methods of ``Fn``):
+  recursion    functions that call themselves or each other (and functions with a ``while`` loop) take a fuel argument:
+               ``f__fuel : Nat → …`` (structural recursion on the fuel, a recursive group is a ``mutual`` block; a
+               ``while`` loop is ``for __i in List.range (__fuel + 1)`` plus a flag that says it ended by itself; running
+               out is ``RecursionError``), and the entry point ``f`` starts it from the size of its arguments
+               (``PyRt.fuelOf``; for parser functions from the remaining input, ``PyTok.fuelOf``)
+  statements   ``try/except/else`` (a flag records that the body ran to its end); ``while`` (no ``else``); ``x[k] = e`` and
+               ``x[k] op= e`` on an *owned* list / dict; ``d.update(e)`` on an owned dict; nested mutation ``xs[i].append(e)``
+               when every element of ``xs`` is a list display of its own; ``with tokenizer.enclosing_tokens(a, b, around=…):``
+               (a pair of primitives around the body; no ``return``/``break``/``continue`` inside); an assignment
+               ``msg = f"…"`` whose only uses are arguments of ``raise Cls(msg)`` is dropped (exceptions carry their class only)
+  parameters   ``*args`` (one tuple parameter; call sites pack the extra positional arguments)
+  in place     a function that updates one parameter in place *and* returns it at every ``return``
+               (``_normalize_extra_values``, ``_repair_python_full_version``) is translated as returning the updated value;
+               a call ``f(x)`` on a local rebinds it (``x ← f x``), and writes it back when ``x`` is the element of a list
+               being enumerated (``for i, x in enumerate(xs): f(x)`` → ``xs[i] ← f x``); a loop over a list may only replace
+               the element it is at
+  state        functions whose first parameter is annotated ``Tokenizer`` run in the state monad ``PyTok.TM``: the tokenizer is
+               the state, its methods (``check/read/expect/consume/raise_syntax_error``, ``.position``) are primitives of
+               ``lean/PkgModel/PyTok.lean`` (guarded by a digest of the class's source, ``STATE_GUARD``); the tokenizer may
+               only be used as their receiver or handed on to another such function, and not inside a ``try`` body
+  oracles      inside the modules listed in ``ORACLE_CALLS`` a call of a listed function / constructor / method
+               (``canonicalize_name``, ``Specifier(...)``, ``spec.contains``, ``utils.canonicalize_name``,
+               ``pathlib.PurePosixPath(p).is_absolute()``, ``str.lower`` …) becomes ``PyRt.ext_call ext "<name>" [args]``
+               (arguments bound by the callee's signature); the function then takes the oracle ``ext : PyRt.Oracle``
+  values       dict displays with constant keys, ``d[k]`` / ``d.get`` / ``k in d`` on values known to be dicts (annotation,
+               ``cast("dict…", …)``, display), constant module-level lists / dicts inlined, ``x in {constants}``
+               (``PyRt.contains_set``), membership and ``[k]["id"]`` on tables that are regenerated as data elsewhere
+               (``TABLE_GLOBALS``), a module-level dict of callables (``_operators.get(k)`` yields a reference by key,
+               ``oper(a, b)`` dispatches on it; ``operator.lt`` … and lambdas), named-tuple constructors, ``zip`` of two,
+               ``s.split()``, ``s.strip()`` (Unicode, per module), ``s.translate(_ASCII_LOWER)``, ``pattern.match`` for the
+               pattern texts in ``MATCH_PATTERNS``, ``typing.cast``, ``x.__class__.__name__``, ``hash`` kept symbolic
+               (``SYMBOLIC_HASH``), a method call on a value of statically unknown class dispatched over the tracked classes
+               that define it (``m.serialize()``), ``if not isinstance(x, C): return …`` narrows ``x`` to ``C`` afterwards
 Second round (blocks marked `x2`; run-time additions in ``lean/PkgModel/PyRx.lean``):
   compiled patterns  ``<compiled global>.match/.search(s)`` of a pattern registered with ``translate.regex_source``
                becomes acceptance by the verified matcher on the regenerated term (``PyRx.rx_test Gen.<Name>…``; truth
@@ -59,6 +93,10 @@ Second round (blocks marked `x2`; run-time additions in ``lean/PkgModel/PyRx.lea
                top-level ``if`` (or returned by a library function all of whose returns are fresh) counts as owned;
                ``and``/``or`` keep their short circuit whenever an operand contains a lifted action
 Checks made by the translator (a failure makes the function unsupported):
+  * a local changed inside a ``try`` body (other than by its last simple statement) must not be read in a handler or after
+    a handler that falls through: Lean's ``try … catch`` restores the locals of the ``try`` start;
+  * a short-circuit operand with a lifted sub-term opens its own ``do`` block (an operand is "pure" only if no ``(← …)``
+    occurs in it);
   * a local that may be unassigned when read is read through ``PyRt.bound`` (``UnboundLocalError`` as in CPython);
     hoisted locals start as ``PyVal.unbound``;
   * a list that is mutated in place is *owned*: from the last top-level ``x = <fresh list>`` before its first
@@ -67,7 +105,7 @@ Checks made by the translator (a failure makes the function unsupported):
     return annotation is a scalar;
   * the reflective helper ``Specifier._get_operator`` is evaluated at translation time only while its source text
     is exactly the text recorded in ``PARTIAL_EVAL_GUARDS``;
-  * recursion between translated functions is refused.
+  * recursion through a dispatcher definition is refused.
 Trusted for resolving attribute access: parameter annotations, the return annotations of library helpers and
 ``self.x = C(...)`` in ``__init__`` (they decide which class's MRO is consulted).
 """
@@ -242,6 +280,104 @@ ITERTOOLS_FN = {"takewhile": "PyRt.takewhile", "dropwhile": "PyRt.dropwhile"}
 CONSUMERS = {"len", "list", "tuple", "sorted", "any", "all", "max", "min", "enumerate", "reversed", "bool", "str"}
 FRESH_CALLS = {"list", "sorted"}
 
+# --- x3: markers (C07, C09) -----------------------------------------------------------------------------------------
+SELECTED += [
+    ("_normalize_extra_values", "packaging.markers", "_normalize_extra_values"),
+    ("_format_marker", "packaging.markers", "_format_marker"),
+    ("_eval_op", "packaging.markers", "_eval_op"),
+    ("_normalize", "packaging.markers", "_normalize"),
+    ("_get_env", "packaging.markers", "_get_env"),
+    ("_evaluate_markers", "packaging.markers", "_evaluate_markers"),
+    ("format_full_version", "packaging.markers", "format_full_version"),
+    ("_repair_python_full_version", "packaging.markers", "_repair_python_full_version"),
+    ("Marker.__str__", "packaging.markers", "Marker.__str__"),
+    ("Marker.__eq__", "packaging.markers", "Marker.__eq__"),
+    ("Marker.__hash__", "packaging.markers", "Marker.__hash__"),
+    ("Marker.evaluate", "packaging.markers", "Marker.evaluate"),
+    ("Marker.__init__", "packaging.markers", "Marker.__init__"),
+]
+TRACKED += [("packaging._parser", "Node"), ("packaging._parser", "Variable"), ("packaging._parser", "Value"),
+            ("packaging._parser", "Op"), ("packaging.markers", "Marker")]
+# functions / constructors / methods that the code of a module calls but that are modelled elsewhere: inside the named
+# module a call of one of them becomes `PyRt.ext_call ext "<name>" [args]` (the function then takes the oracle `ext`)
+ORACLE_CALLS = {
+    "packaging.markers": {"canonicalize_name", "Specifier", "Specifier.contains", "default_environment"},
+}
+# modules in which `hash(v)` stays symbolic (`PyRt.hash_sym`), so that the hashed key is visible in the result
+SYMBOLIC_HASH = {"packaging.markers"}
+DICT_MUTATORS = {"update": ("PyRt.dict_update", 1)}
+DICT_METHODS = {"copy": ("PyRt.dict_copy", 0), "keys": ("PyRt.dict_keys", 0), "items": ("PyRt.dict_items", 0)}
+OPERATOR_FN = {"lt": "PyRt.lt {a} {b}", "le": "PyRt.le {a} {b}", "gt": "PyRt.gt {a} {b}", "ge": "PyRt.ge {a} {b}",
+               "eq": "pure (PyRt.eq {a} {b})", "ne": "pure (PyRt.ne {a} {b})"}
+# --- x3: the parser (C07, C08, C09): functions over a shared, mutated `Tokenizer` run in the state monad `PyTok.TM`; the
+# tokenizer's methods are primitives of lean/PkgModel/PyTok.lean
+SELECTED += [
+    ("process_env_var", "packaging._parser", "process_env_var"),
+    ("process_python_str", "packaging._parser", "process_python_str"),
+    ("_parse_marker_var", "packaging._parser", "_parse_marker_var"),
+    ("_parse_marker_op", "packaging._parser", "_parse_marker_op"),
+    ("_parse_marker_item", "packaging._parser", "_parse_marker_item"),
+    ("_parse_marker_atom", "packaging._parser", "_parse_marker_atom"),
+    ("_parse_marker", "packaging._parser", "_parse_marker"),
+    ("_parse_full_marker", "packaging._parser", "_parse_full_marker"),
+    ("parse_marker", "packaging._parser", "parse_marker"),
+    ("_parse_version_many", "packaging._parser", "_parse_version_many"),
+    ("_parse_specifier", "packaging._parser", "_parse_specifier"),
+    ("_parse_extras_list", "packaging._parser", "_parse_extras_list"),
+    ("_parse_extras", "packaging._parser", "_parse_extras"),
+    ("_parse_requirement_marker", "packaging._parser", "_parse_requirement_marker"),
+    ("_parse_requirement_details", "packaging._parser", "_parse_requirement_details"),
+    ("_parse_requirement", "packaging._parser", "_parse_requirement"),
+    ("parse_requirement", "packaging._parser", "parse_requirement"),
+]
+TRACKED += [("packaging._parser", "ParsedRequirement")]
+STATE_CLASS = ("packaging._tokenizer", "Tokenizer")
+STATE_MONAD = "PyTok.TM"
+STATE_IMPORT = "PkgModel.PyTok"
+# method -> (primitive, positional arguments kept, keyword arguments kept (with their defaults))
+STATE_METHODS = {
+    "check": ("PyTok.check", 1, {"peek": "(PyVal.bool false)"}),
+    "read": ("PyTok.read", 0, {}),
+    "expect": ("PyTok.expect", 1, {}),                  # `expected=` is only the message
+    "consume": ("PyTok.consume", 1, {}),
+    "raise_syntax_error": ("PyTok.raise_syntax_error", 0, {}),   # message and span are not kept
+}
+# the primitives mirror this text of the class (doc strings and comments aside): sha256 of the ast dump of its methods
+STATE_GUARD = "bf841c8223628ed05d38c233699386b97f8813a766c28f2f299b42cdd65e0654"
+EXTERNAL_MODULE_CALLS = {("ast", "literal_eval"): ("PyTok.literal_eval", STATE_IMPORT)}
+# --- x3: metadata (C17, C18)
+SELECTED += [
+    ("_parse_keywords", "packaging.metadata", "_parse_keywords"),
+    ("_parse_project_urls", "packaging.metadata", "_parse_project_urls"),
+    ("_Validator._process_metadata_version", "packaging.metadata", "_Validator._process_metadata_version"),
+    ("_Validator._process_name", "packaging.metadata", "_Validator._process_name"),
+    ("_Validator._process_version", "packaging.metadata", "_Validator._process_version"),
+    ("_Validator._process_summary", "packaging.metadata", "_Validator._process_summary"),
+    ("_Validator._process_dynamic", "packaging.metadata", "_Validator._process_dynamic"),
+    ("_Validator._process_provides_extra", "packaging.metadata", "_Validator._process_provides_extra"),
+    ("_Validator._process_requires_python", "packaging.metadata", "_Validator._process_requires_python"),
+    ("_Validator._process_requires_dist", "packaging.metadata", "_Validator._process_requires_dist"),
+    ("_Validator._process_license_expression", "packaging.metadata", "_Validator._process_license_expression"),
+    ("_Validator._process_license_files", "packaging.metadata", "_Validator._process_license_files"),
+]
+ORACLE_CALLS["packaging.metadata"] = {
+    "utils.canonicalize_name", "version_module.parse", "specifiers.SpecifierSet", "requirements.Requirement",
+    "licenses.canonicalize_license_expression", "pathlib.PurePosixPath", "pathlib.PureWindowsPath",
+    "PurePosixPath.is_absolute", "PureWindowsPath.is_absolute", "PureWindowsPath.as_posix", "str.lower"}
+# modules in which `s.strip()` is the Unicode-aware primitive of PyMetaRt
+UNICODE_STRIP = {"packaging.metadata": ("PyMetaRt.str_strip", "PkgModel.PyMetaRt")}
+# modules in which `x in {constants}` keeps the hashability test of a set (`PyRt.contains_set`); elsewhere a set display in
+# a membership test is read as a tuple (x2)
+SET_HASH_CHECK_MODULES = {"packaging.licenses", "packaging.metadata"}
+# --- x3: licenses (C19)
+SELECTED += [("canonicalize_license_expression", "packaging.licenses", "canonicalize_license_expression")]
+# module-level tables that are regenerated as data elsewhere (`Generated/SpdxTables`): (module, name) -> run-time table name;
+# supported uses: `k in T`, `k not in T`, `T[k]["id"]`
+TABLE_GLOBALS = {("packaging.licenses", "LICENSES"): "LICENSES", ("packaging.licenses", "EXCEPTIONS"): "EXCEPTIONS"}
+TABLE_IMPORT = "PkgModel.PyLic"
+# compiled patterns matched with `.match` by a hand-written matcher: (pattern text, flags) -> (primitive, import)
+MATCH_PATTERNS = {("^[A-Za-z0-9.-]+$", 32): ("PyLic.ref_match", "PkgModel.PyLic")}
+# --- x3 end ---------------------------------------------------------------------------------------------------------
 # --- x2: tables of the second round -----------------------------------------------------------------------------------
 METHODS.update({"count": ("PyRx.str_count", 1)})
 # `s.add(x)` on an owned set local: the run-time function also takes the equality function of the member class
@@ -287,6 +423,10 @@ class Fn:
         if len(qn) == 2 and qn[0] in self.globals and inspect.isclass(self.globals[qn[0]]):
             self.owner = self.globals[qn[0]]
         self._class_guard = set()
+        self.state_param = None    # x3: name of the parameter that holds the shared, mutated Tokenizer
+        a0 = self.node.args.args[0] if self.node.args.args else None
+        if a0 is not None and ctx.is_state_fn(pyfunc):
+            self.state_param = a0.arg
         self.fn_locals = {}        # local name -> ("get_operator", class, receiver term, operator term)
         self.dict_locals = {}      # local name -> {constant key: Lean local holding the value}
 
@@ -323,7 +463,7 @@ class Fn:
             for a in args + self.node.args.kwonlyargs:
                 if a.arg == e.id and e.id not in self.param_assigned_names():
                     c = self.ann_class(a.annotation)
-                    return c if c is not None else self.narrowed_class(e)      # --- x2
+                    return c if c is not None else (self.narrowed_class(e) or self.x3_guard_class(e))      # --- x2 / x3
             # a local assigned exactly once, from an expression of known class
             key = ("local", e.id)
             if key in self._class_guard:
@@ -392,9 +532,10 @@ class Fn:
 
     def params(self):
         a = self.node.args
-        if a.vararg or a.kwarg or a.posonlyargs:
-            raise Unsupported("*args / **kwargs / positional-only parameters")
-        return [x.arg for x in a.args] + [x.arg for x in a.kwonlyargs]
+        if a.kwarg or a.posonlyargs:
+            raise Unsupported("**kwargs / positional-only parameters")
+        # x3: `*values` is one parameter holding the tuple of the extra positional arguments
+        return [x.arg for x in a.args] + ([a.vararg.arg] if a.vararg else []) + [x.arg for x in a.kwonlyargs]
 
     # ------------------------------------------------------------------ analyses
     def analyse(self):
@@ -406,7 +547,7 @@ class Fn:
             for name in _targets_of(n):
                 if name not in assigned:
                     assigned.append(name)
-            if isinstance(n, (ast.Global, ast.Nonlocal, ast.While, ast.With, ast.AsyncFor, ast.AsyncWith, ast.Delete,
+            if isinstance(n, (ast.Global, ast.Nonlocal, ast.AsyncFor, ast.AsyncWith, ast.Delete,
                               ast.ClassDef, ast.FunctionDef, ast.AsyncFunctionDef, ast.Match, ast.Import, ast.ImportFrom)):
                 raise Unsupported(f"statement {type(n).__name__}")
         # loop variables that are read after their loop (Python leaks them) or assigned elsewhere become ordinary locals
@@ -442,6 +583,8 @@ class Fn:
             if isinstance(n, ast.Expr) and isinstance(n.value, ast.Call) and isinstance(n.value.func, ast.Attribute) \
                     and isinstance(n.value.func.value, ast.Name) and n.value.func.attr in (set(MUTATORS) | OTHER_MUTATORS) \
                     and n.value.func.value.id in self.locals:
+                if n.value.func.attr in DICT_MUTATORS and self.x3_is_dict_name(n.value.func.value.id):
+                    continue                             # x3: checked in x3_analyse
                 if n.value.func.attr in OTHER_MUTATORS:
                     raise Unsupported(f"in-place method {n.value.func.attr}")
                 self.mutated.add(n.value.func.value.id)
@@ -451,9 +594,12 @@ class Fn:
                     if self.is_init and isinstance(n, ast.Assign) and isinstance(t, ast.Attribute) \
                             and isinstance(t.value, ast.Name) and t.value.id == params[0]:
                         continue                         # self.x = e inside __init__
+                    if isinstance(t, ast.Subscript) and isinstance(t.value, ast.Name) and t.value.id in self.locals:
+                        continue                         # x3: `name[k] = e`, checked in x3_analyse
                     for sub in ast.walk(t):
                         if isinstance(sub, (ast.Subscript, ast.Attribute)) and isinstance(sub.ctx, ast.Store):
                             raise Unsupported("assignment to a subscript or attribute")
+        self.x3_analyse(body)
         self._check_ownership(body)
         # hoisting: locals whose first assignment is not a top-level statement of the body
         top_first = set()
@@ -480,6 +626,7 @@ class Fn:
             muts = [n.lineno for n in _walk_scope(body)
                     if isinstance(n, ast.Expr) and isinstance(n.value, ast.Call) and isinstance(n.value.func, ast.Attribute)
                     and isinstance(n.value.func.value, ast.Name) and n.value.func.value.id == m and n.value.func.attr in MUTATORS]
+            muts += [n.lineno for n in _walk_scope(body) if _nested_mutation(n) == m]          # x3
             first = min(muts)
             fresh = [st for st in body if isinstance(st, ast.Assign) and len(st.targets) == 1
                      and isinstance(st.targets[0], ast.Name) and st.targets[0].id == m and _is_fresh_list(st.value)
@@ -544,6 +691,9 @@ class Fn:
                     ok = True
                 elif isinstance(p, ast.Starred):
                     ok = True
+                elif isinstance(p, ast.Assign) and p.value is n and len(p.targets) == 1 and isinstance(p.targets[0], ast.Tuple) \
+                        and all(isinstance(x, ast.Name) for x in p.targets[0].elts):
+                    ok = True                                    # x3: unpacking reads the elements, no alias of the list
                 elif isinstance(p, (ast.If, ast.IfExp, ast.UnaryOp)):
                     ok = True                                    # truth test
                 elif isinstance(p, ast.BoolOp) and isinstance(parents.get(p), (ast.If, ast.UnaryOp)):
@@ -682,9 +832,11 @@ class Fn:
                     if st.orelse:
                         raise Unsupported("for ... else")
                 elif isinstance(st, ast.Try):
-                    if st.orelse or st.finalbody:
-                        raise Unsupported("try ... else / finally")
+                    if st.finalbody:
+                        raise Unsupported("try ... finally")
                     a = block(st.body, d)
+                    if st.orelse and a is not None:       # x3: the else block runs after a body that completed
+                        a = block(st.orelse, a)
                     outs = [a]
                     for h in st.handlers:
                         outs.append(block(h.body, d))
@@ -695,6 +847,20 @@ class Fn:
                     for o in outs[1:]:
                         nd = nd & o
                     d = nd
+                elif isinstance(st, ast.While):               # x3
+                    expr_loads(st.test, d)
+                    block(st.body, set(d))
+                    if st.orelse:
+                        raise Unsupported("while ... else")
+                elif isinstance(st, ast.With):                # x3
+                    for it in st.items:
+                        expr_loads(it.context_expr, d)
+                        if it.optional_vars is not None:
+                            raise Unsupported("with ... as")
+                    r = block(st.body, d)
+                    if r is None:
+                        return None
+                    d = r
                 elif isinstance(st, (ast.Expr, ast.Assert)):
                     expr_loads(st.value if isinstance(st, ast.Expr) else st.test, d)
                 elif isinstance(st, ast.Pass):
@@ -728,7 +894,24 @@ class Fn:
         if _falls_through(body):
             self.emit(1, "return " + self.default_return())
         env = "(env : PyRt.Env) " if self.lean_name in self.ctx.uses_env else ""
-        self.lines[self.head_index] = f"def {self.lean_name} {env}" + (f"({sig} : PyVal) " if params else "") + ": M PyVal := do"
+        env += "(ext : PyRt.Oracle) " if self.lean_name in self.ctx.uses_ext else ""          # x3
+        monad = "M"
+        if self.state_param is not None:                                                       # x3: state monad
+            monad = STATE_MONAD
+            self.ctx.imports.add(STATE_IMPORT)
+            self.ctx.state_fns.add(self.lean_name)
+            params = [p for p in params if p != self.state_param]
+            sig = " ".join(lname(p) for p in params)
+        if getattr(self, "has_while", False):
+            self.ctx.loops.add(self.lean_name)
+        if self.lean_name in self.ctx.recursive:                                               # x3: fuel
+            ps = [lname(p) for p in params]
+            self.lines[self.head_index] = (
+                f"def {self.lean_name}__fuel {env}: Nat" + "".join(" → PyVal" for _ in ps) + f" → {monad} PyVal\n"
+                f"  | 0" + "".join(", _" for _ in ps) + ' => throw "RecursionError"\n'
+                f"  | __fuel + 1" + "".join(", " + q for q in ps) + " => do")
+            return "\n".join([self.lines[self.head_index]] + ["  " + l for l in self.lines[self.head_index + 1:]])
+        self.lines[self.head_index] = f"def {self.lean_name} {env}" + (f"({sig} : PyVal) " if params else "") + f": {monad} PyVal := do"
         return "\n".join(self.lines)
 
     def default_return(self):
@@ -758,6 +941,8 @@ class Fn:
             self.emit(ind, f"let mut {n} := {rhs}" if rhs_pure else f"let mut {n} ← {rhs}")
 
     def stmt(self, st, ind):
+        if self.x3_stmt(st, ind):
+            return
         if isinstance(st, ast.Pass):
             self.emit(ind, "pure ()")
         elif isinstance(st, ast.Return):
@@ -839,27 +1024,38 @@ class Fn:
                 t = self.fresh("x")
                 self.emit(ind, f"for {t} in (← PyRt.iterate {src}) do")
                 self.emit(ind + 1, self.unpack_line(names, t))
+                self.x3_enter_loop(st, names, ind + 1)
             else:
                 raise Unsupported("loop target")
             saved = set(self.declared)
+            self.loop_stack = getattr(self, "loop_stack", []) + [None]
             self.block(st.body, ind + 1)
+            self.loop_stack = self.loop_stack[:-1]
             self.declared = saved | (self.declared & set(self.hoisted))
         elif isinstance(st, (ast.Break,)):
+            if getattr(self, "loop_stack", None) and self.loop_stack[-1] is not None:
+                self.emit(ind, f"{self.loop_stack[-1]} := true")        # x3: a `while` loop that ended by itself
             self.emit(ind, "break")
         elif isinstance(st, ast.Continue):
             self.emit(ind, "continue")
         elif isinstance(st, ast.Try):
+            flag = None
+            if st.orelse:                                  # x3: try/else — the flag says the body ran to its end
+                flag = self.fresh("else")
+                self.emit(ind, f"let mut {flag} := false")
             self.emit(ind, "try")
             saved = set(self.declared)
             self.block(st.body, ind + 1)
+            if flag is not None and _falls_through(st.body):
+                self.emit(ind + 1, f"{flag} := true")
             self.declared = set(saved)
             e = self.fresh("e")
             self.emit(ind, f"catch {e} =>")
             first = True
             for h in st.handlers:
-                causes = {id(r.cause) for s in h.body for r in ast.walk(s) if isinstance(r, ast.Raise) and r.cause is not None}
-                if h.name is not None and any(isinstance(n, ast.Name) and n.id == h.name and id(n) not in causes   # x2: `raise C from e`
-                                              for s in h.body for n in ast.walk(s)):
+                if h.name is not None and any(isinstance(n, ast.Name) and n.id == h.name for s in h.body
+                                              for sub in ([s] if not isinstance(s, ast.Raise) else [])     # x3: a `raise … from exc`
+                                              for n in ast.walk(sub)):                                    # keeps only the class
                     raise Unsupported("the caught exception object is used")
                 classes = self.handler_classes(h.type)
                 test = " || ".join(f'PyRt.catches "{c}" {e}' for c in classes)
@@ -868,6 +1064,10 @@ class Fn:
                 self.block(h.body, ind + 2)
                 self.declared = set(saved)
             self.emit(ind + 1, f"else throw {e}")
+            if flag is not None:
+                self.emit(ind, f"if {flag} then")
+                self.block(st.orelse, ind + 1)
+                self.declared = set(saved) | (self.declared & set(self.hoisted))
         else:
             raise Unsupported(f"statement {type(st).__name__}")
 
@@ -1017,6 +1217,8 @@ class Fn:
                     self.emit(ind, f"let _ ← {c}")
             self.emit(ind, "pure ()")
             return
+        if self.x3_expr_stmt(e, ind):
+            return
         if isinstance(e, ast.Call) and isinstance(e.func, ast.Attribute) and isinstance(e.func.value, ast.Name) \
                 and e.func.attr in MUTATORS and e.func.value.id in self.mutated:
             fn, ar = MUTATORS[e.func.attr]
@@ -1077,8 +1279,12 @@ class Fn:
         return f"PyRt.truthy {self.val(e)}"
 
     def _in(self, l, r, negate):
-        r = _set_display_as_tuple(r)
         lv = self.val(l)          # Python evaluates the left operand first
+        special = self.x3_in(lv, r)
+        if special is not None:
+            t = f"(← {special})"
+            return f"!{t}" if negate else t
+        r = _set_display_as_tuple(r)
         rv = self.val(r)
         t = f"(← PyRt.contains {rv} {lv})"
         return f"!{t}" if negate else t
@@ -1089,7 +1295,7 @@ class Fn:
             p, c = self.expr(e)
         finally:
             self.tmp, self.lines = saved_tmp, saved_lines
-        return p and "←" not in c       # x2: a term with a lifted action is not pure (it would lose the short circuit)
+        return p and "←" not in c          # x3: a lifted sub-term would be evaluated outside the short circuit
 
     def expr(self, e):
         """-> (pure?, term): a PyVal term if pure, else an `M PyVal` term.  Monadic sub-terms are lifted with
@@ -1124,8 +1330,14 @@ class Fn:
         if isinstance(e, ast.IfExp):
             c = self.scoped_cond(e.test)
             return False, f"(do if {c} then {self.scoped(e.body)} else {self.scoped(e.orelse)})"
+        if isinstance(e, ast.Subscript) and isinstance(e.value, ast.Subscript) and self.x3_table(e.value.value) is not None:
+            if isinstance(e.slice, ast.Constant) and e.slice.value == "id" and not isinstance(e.value.slice, ast.Slice):
+                return False, f'PyLic.tbl_id "{self.x3_table(e.value.value)}" {self.val(e.value.slice)}'
+            raise Unsupported("use of a regenerated table other than membership and [key][\"id\"]")
         if isinstance(e, ast.Subscript):
             base = self.val(e.value)
+            if not isinstance(e.slice, ast.Slice) and self.x3_is_dict_expr(e.value):
+                return False, f"PyRt.dict_getitem {base} {self.val(e.slice)}"
             if isinstance(e.slice, ast.Slice):
                 if e.slice.step is not None:
                     raise Unsupported("slice with a step")
@@ -1163,6 +1375,12 @@ class Fn:
             return self.attribute(e)
         if isinstance(e, ast.Call):
             return self.call(e)
+        if isinstance(e, ast.Dict):                      # x3: a dict display with distinct constant keys
+            if any(k is None for k in e.keys) or not all(isinstance(k, ast.Constant) and isinstance(k.value, (str, int)) for k in e.keys) \
+                    or len({k.value for k in e.keys}) != len(e.keys):
+                raise Unsupported("dict display with keys that are not distinct constants")
+            items = ", ".join(f"({lconst(k.value)}, {self.val(v)})" for k, v in zip(e.keys, e.values))
+            return True, f"(PyVal.dict [{items}])"
         if isinstance(e, ast.Lambda):
             raise Unsupported("lambda outside a supported helper call")
         raise Unsupported("expression " + type(e).__name__)
@@ -1173,6 +1391,8 @@ class Fn:
 
     def name(self, e):
         n = e.id
+        if n == getattr(self, "state_param", None) and n not in self.bound_stack():
+            raise Unsupported(f"the {STATE_CLASS[1]} parameter used as a value")
         if n in self.bound_stack():
             return True, lname(n)
         if n in self.locals:
@@ -1189,6 +1409,15 @@ class Fn:
             return True, lconst(g[1])
         if kind == "sentinel":
             return True, g[1]
+        if kind == "other" and isinstance(g[1], (list, dict)) and not inspect.isclass(g[1]):      # x3: constant tables
+            def const(v):
+                if isinstance(v, dict):
+                    return "(PyVal.dict [" + ", ".join(f"({lconst(k)}, {lconst(x)})" for k, x in v.items()) + "])"
+                return lconst(v)
+            try:
+                return True, const(g[1])
+            except Unsupported:
+                pass
         raise Unsupported(f"global name {n} used as a value ({kind})")
 
     _bound: list = []
@@ -1295,8 +1524,12 @@ class Fn:
             if isinstance(op, ast.NotEq):
                 return True, f"(PyRt.ne {self.val(l)} {self.val(r)})"
             if isinstance(op, (ast.In, ast.NotIn)):
-                r = _set_display_as_tuple(r)
                 lv = self.val(l)
+                special = self.x3_in(lv, r)
+                if special is not None:
+                    neg = "!" if isinstance(op, ast.NotIn) else ""
+                    return False, f"(do pure (PyVal.bool ({neg}(← {special}))))"
+                r = _set_display_as_tuple(r)
                 rv = self.val(r)
                 return False, f"PyRt.{'in_' if isinstance(op, ast.In) else 'not_in'} {lv} {rv}"
             if type(op) in _CMP:
@@ -1443,6 +1676,9 @@ class Fn:
                 if name in self.ctx.uses_env:
                     return f"({name} {self.use_env()})"
                 return name
+        if isinstance(a, ast.Attribute) and isinstance(a.value, ast.Name) and a.value.id == "str" and "str" not in self.locals \
+                and a.attr == "lower" and "str.lower" in self.x3_oracles():             # x3: `map(str.lower, …)`
+            return f'(fun __s => PyRt.ext_call {self.use_ext()} "str.lower" [__s])'
         raise Unsupported("function argument that is neither a lambda nor a selected function")
 
     def attribute(self, e):
@@ -1463,6 +1699,13 @@ class Fn:
                                        f"else {self.ctx.require(obj.fget)} {lname(selfname)})")
                     raise Unsupported(f"super().{e.attr} is not a property")
             raise Unsupported(f"super().{e.attr} not found")
+        if isinstance(base, ast.Name) and base.id == getattr(self, "state_param", None) and base.id not in self.bound_stack():
+            if e.attr == "position":                                                                 # x3
+                self.x3_state_guard()
+                return False, "PyTok.position"
+            raise Unsupported(f"attribute .{e.attr} of the {STATE_CLASS[1]}")
+        if e.attr == "__name__" and isinstance(base, ast.Attribute) and base.attr == "__class__":       # x3
+            return True, f"(PyVal.str (Py.ofString (PyRt.className {self.val(base.value)})))"
         dotted = _dotted(e)
         if dotted and dotted[0] not in self.locals and dotted[0] not in self.bound_stack() and ".".join(dotted) in EXTERNAL_READS \
                 and inspect.ismodule(self.globals.get(dotted[0])):
@@ -1470,7 +1713,7 @@ class Fn:
         c = self.static_class(base)
         recv = self.val(base)
         if c is None:
-            if self.ctx.defined_by_tracked(e.attr):
+            if self.ctx.defined_by_tracked(e.attr) and not self.x3_foreign(base):
                 raise Unsupported(f"attribute .{e.attr} of a value whose class is not known statically")
             return False, f'PyRt.getattr {recv} "{e.attr}"'
         return False, self.dispatch(c, e.attr, recv, lambda impl: self.attr_impl(impl, e.attr))
@@ -1530,6 +1773,9 @@ class Fn:
                     continue
                 raise Unsupported("**kwargs in a call")
             kws[k.arg] = k.value
+        r3 = self.x3_call(e, kws)
+        if r3 is not None:
+            return r3
         if isinstance(f, ast.Name) and f.id in self.fn_locals:
             kind, c, r, o = self.fn_locals[f.id]
             if kws or len(e.args) != 2:
@@ -1806,6 +2052,10 @@ class Fn:
         env = ""
         if lean_name in self.ctx.uses_env:
             env = " " + self.use_env()
+        if lean_name in self.ctx.uses_ext:                          # x3
+            env += " " + self.use_ext()
+        if lean_name in self.ctx.recursive and self.ctx.recursive[lean_name] == self.ctx.recursive.get(self.lean_name):
+            return lean_name + "__fuel" + env + " __fuel" + "".join(" " + a for a in args)   # x3: inside the same group
         return lean_name + env + "".join(" " + a for a in args)
 
     def builtin_call(self, name, args, kws):
@@ -1815,6 +2065,8 @@ class Fn:
             fn = self.fn_arg(args[0])
             return False, f"PyRt.map_ {fn} {self.val(args[1])}"
         if name == "hash" and not kws and len(args) == 1:
+            if self.pyfunc.__module__ in SYMBOLIC_HASH:             # x3
+                return False, f"PyRt.hash_sym {self.val(args[0])}"
             return False, f"PyRt.hash_ {self.val(args[0])}"
         if name == "hasattr" and not kws and len(args) == 2 and isinstance(args[0], ast.Name) \
                 and isinstance(args[1], ast.Constant) and (args[0].id, args[1].value) in EXTERNAL_HASATTR:
@@ -1908,6 +2160,16 @@ class Fn:
         return self.bind_args_named(sig, names, args, kws)
 
     def bind_args_named(self, sig, names, args, kws):
+        var = [n for n in names if sig.parameters[n].kind == inspect.Parameter.VAR_POSITIONAL]
+        if var:                                                     # x3: extra positional arguments -> one tuple
+            k = names.index(var[0])
+            head, extra = list(args[:k]), list(args[k:])
+            vals = [self.val(a) for a in head]
+            packed = "(PyVal.tuple [" + ", ".join(self.val(a) for a in extra) + "])"
+            rest = self.bind_args_named(sig, [n for n in names[k + 1:]], [], kws)
+            if len(head) < k:
+                raise Unsupported("missing positional argument before *args")
+            return vals + [packed] + rest
         out = {}
         if len(args) > len(names):
             raise Unsupported("too many arguments")
@@ -1932,8 +2194,24 @@ class Fn:
         return res
 
     def exc_class(self, e):
+        if isinstance(e, ast.Call) and isinstance(e.func, ast.Attribute) and isinstance(e.func.value, ast.Name) \
+                and self.owner is not None and self.node.args.args and e.func.value.id == self.node.args.args[0].arg:
+            impl = self.ctx.lookup(self.owner, e.func.attr)      # x3: `raise self._helper(...)`: the helper's return annotation
+            if inspect.isfunction(impl):
+                r = ast.parse(textwrap.dedent(inspect.getsource(impl))).body[0].returns
+                v = impl.__globals__.get(r.id) if isinstance(r, ast.Name) else None
+                if inspect.isclass(v) and issubclass(v, BaseException):
+                    return v.__name__
+            raise Unsupported("raise of the result of a method that is not annotated with an exception class")
         if isinstance(e, ast.Call):
             e = e.func
+        if isinstance(e, ast.Attribute):                          # x3: `utils.InvalidName`
+            d = _dotted(e)
+            obj = self.globals.get(d[0]) if d and d[0] not in self.locals else None
+            for part in (d or [])[1:]:
+                obj = getattr(obj, part, None)
+            if inspect.isclass(obj) and issubclass(obj, BaseException):
+                return obj.__name__
         if isinstance(e, ast.Name):
             g = self.resolve_global(e.id)
             if g[0] == "class" and issubclass(g[1], BaseException):
@@ -1951,6 +2229,753 @@ class Fn:
         if isinstance(t, ast.Tuple):
             return [c for x in t.elts for c in self.handler_classes(x)]
         return [self.exc_class(t)]
+
+    # ================================================================================================ x3 extensions
+    # oracles, dicts, item assignment on owned values, functions that update a parameter in place, nested list mutation,
+    # tables of callables, dynamic method dispatch, isinstance guards
+    def use_ext(self):
+        self.ctx.uses_ext.add(self.lean_name)
+        return "ext"
+
+    def x3_oracles(self):
+        return ORACLE_CALLS.get(self.pyfunc.__module__, ())
+
+    # ---- dict-typed names (by annotation or by what they are bound to)
+    def x3_is_dict_ann(self, ann):
+        if ann is None:
+            return False
+        if isinstance(ann, ast.Constant) and isinstance(ann.value, str):
+            try:
+                ann = ast.parse(ann.value, mode="eval").body
+            except SyntaxError:
+                return False
+        if isinstance(ann, ast.BinOp) and isinstance(ann.op, ast.BitOr):
+            return self.x3_is_dict_ann(ann.left) or self.x3_is_dict_ann(ann.right)
+        if isinstance(ann, ast.Subscript):
+            ann = ann.value
+        return isinstance(ann, ast.Name) and ann.id in ("dict", "Dict", "RawMetadata")
+
+    def x3_is_dict_name(self, name):
+        cache = self.__dict__.setdefault("_x3_dict_cache", {})
+        if name not in cache:
+            cache[name] = False                       # cycles: not a dict
+            cache[name] = self._x3_is_dict_name(name)
+        return cache[name]
+
+    def _x3_is_dict_name(self, name):
+        a = self.node.args
+        for p_ in a.args + a.kwonlyargs:
+            if p_.arg == name:
+                return self.x3_is_dict_ann(p_.annotation)
+        binds = [n for n in _walk_scope(self.node.body) if name in _targets_of(n)]
+        if not binds:
+            return False
+        for n in binds:
+            if isinstance(n, ast.AnnAssign) and self.x3_is_dict_ann(n.annotation):
+                continue
+            if isinstance(n, ast.Assign) and len(n.targets) == 1 and isinstance(n.targets[0], ast.Name) and self.x3_dict_valued(n.value):
+                continue
+            return False
+        return True
+
+    def x3_dict_valued(self, v):
+        if isinstance(v, (ast.Dict, ast.DictComp)):
+            return True
+        if isinstance(v, ast.Call) and isinstance(v.func, ast.Name):
+            if v.func.id == "dict" and "dict" not in self.locals:
+                return True
+            if v.func.id == "cast" and len(v.args) == 2:
+                return self.x3_is_dict_ann(v.args[0]) or self.x3_dict_valued(v.args[1])
+        if isinstance(v, ast.Call) and isinstance(v.func, ast.Attribute) and v.func.attr == "copy" and self.x3_is_dict_expr(v.func.value):
+            return True
+        return False
+
+    def x3_is_dict_expr(self, e):
+        if isinstance(e, ast.Name) and e.id in self.locals and e.id not in self.bound_stack():
+            return self.x3_is_dict_name(e.id)
+        return False
+
+    # ---- functions that update a parameter in place and hand it back
+    def x3_callee(self, call):
+        """the library function a call names (plain name, not a local), else None"""
+        f = call.func
+        if isinstance(f, ast.Name) and f.id not in self.locals and f.id not in self.bound_stack():
+            v = self.globals.get(f.id)
+            if inspect.isfunction(v) and (v.__module__ or "").startswith("packaging"):
+                return v
+        return None
+
+    def x3_ipf_arg(self, call):
+        """`f(…, x, …)` where f updates that parameter in place and x is a plain local name: the Name node, else None"""
+        v = self.x3_callee(call)
+        if v is None:
+            return None
+        k = self.ctx.ipf_of(v)
+        if k is None or k >= len(call.args):
+            return None
+        a = call.args[k]
+        return a if isinstance(a, ast.Name) and a.id in self.locals else None
+
+    def x3_analyse(self, body):
+        params = self.params()
+        self.owned2 = set()       # names updated in place other than by the list methods in MUTATORS
+        self.nested = set()       # lists whose *elements* are mutated: `n[i].append(x)`
+        self.alias = {}           # loop variable -> (list, index variable) inside `for i, x in enumerate(list)`
+        self._ipf_ok = set()      # ids of in-place calls that a statement-level rewrite has taken care of
+        enum_elems = {}
+        for n in _walk_scope(body):
+            if isinstance(n, ast.For) and isinstance(n.iter, ast.Call) and isinstance(n.iter.func, ast.Name) \
+                    and n.iter.func.id == "enumerate" and len(n.iter.args) == 1 and isinstance(n.iter.args[0], ast.Name) \
+                    and isinstance(n.target, ast.Tuple) and len(n.target.elts) == 2 and all(isinstance(x, ast.Name) for x in n.target.elts):
+                enum_elems[n.target.elts[1].id] = (n.iter.args[0].id, n.target.elts[0].id, n)
+        self.enum_elems = enum_elems
+        for n in _walk_scope(body, into_exprs=True):
+            if isinstance(n, (ast.Assign, ast.AugAssign, ast.AnnAssign)):
+                for t in (n.targets if isinstance(n, ast.Assign) else [n.target]):
+                    if isinstance(t, ast.Subscript) and isinstance(t.value, ast.Name) and t.value.id in self.locals:
+                        self.owned2.add(t.value.id)
+            if isinstance(n, ast.Call) and isinstance(n.func, ast.Attribute) and isinstance(n.func.value, ast.Name) \
+                    and n.func.attr in DICT_MUTATORS and n.func.value.id in self.locals and self.x3_is_dict_name(n.func.value.id):
+                self.owned2.add(n.func.value.id)
+            if isinstance(n, ast.Call):
+                a = self.x3_ipf_arg(n)
+                if a is not None:
+                    if a.id in enum_elems:
+                        self.owned2.add(enum_elems[a.id][0])      # written back into the list it came from
+                    else:
+                        self.owned2.add(a.id)
+        for n in _walk_scope(body):
+            m = _nested_mutation(n)
+            if m is not None:
+                if m not in self.locals:
+                    raise Unsupported("nested mutation of something that is not a local")
+                self.mutated.add(m)
+                self.nested.add(m)
+        for m in self.nested:       # every element of such a list must be a list of its own (no alias can exist)
+            for n in _walk_scope(body):
+                vals = []
+                if isinstance(n, (ast.Assign, ast.AnnAssign)) and m in _targets_of(n) and n.value is not None:
+                    if not isinstance(n.value, ast.List):
+                        raise Unsupported(f"{m}: elements are mutated but it is not bound to a list display")
+                    vals = list(n.value.elts)
+                if isinstance(n, ast.Expr) and isinstance(n.value, ast.Call) and isinstance(n.value.func, ast.Attribute) \
+                        and isinstance(n.value.func.value, ast.Name) and n.value.func.value.id == m:
+                    if n.value.func.attr != "append":
+                        raise Unsupported(f"{m}: elements are mutated and it is changed by .{n.value.func.attr}")
+                    vals = list(n.value.args)
+                if any(not _is_fresh_list(v) for v in vals):
+                    raise Unsupported(f"{m}: elements are mutated but an element may be shared")
+        own = self.ctx.ipf_of(self.pyfunc)
+        own_name = self.node.args.args[own].arg if own is not None else None
+        assigned = {x for n in _walk_scope(body) for x in _targets_of(n)}
+        parents = {}
+        for n in _walk_scope(body, into_exprs=True):
+            for c in ast.iter_child_nodes(n):
+                parents[c] = n
+        for m in sorted(self.owned2):
+            if m in params:
+                if m != own_name or m in assigned:
+                    raise Unsupported(f"parameter {m} is updated in place (and the function is not of the form that hands it back)")
+                if m not in self.param_assigned:
+                    self.param_assigned.append(m)
+            else:
+                for n in _walk_scope(body):
+                    if m in _targets_of(n):
+                        if not (isinstance(n, (ast.Assign, ast.AnnAssign)) and n.value is not None and self.x3_fresh_value(n.value)
+                                and isinstance(n.targets[0] if isinstance(n, ast.Assign) else n.target, ast.Name)):
+                            raise Unsupported(f"{m} is updated in place but bound to a value that may be shared")
+                for n in _walk_scope(body):
+                    if isinstance(n, ast.For) and any(isinstance(x, ast.Name) and x.id == m for x in ast.walk(n.target)):
+                        raise Unsupported(f"loop variable {m} is updated in place")
+            for n in _walk_scope(body, into_exprs=True):
+                if isinstance(n, ast.Name) and n.id == m and isinstance(n.ctx, ast.Load):
+                    p_ = parents.get(n)
+                    g_ = parents.get(p_)
+                    ok = False
+                    if isinstance(p_, ast.Subscript) and p_.value is n:
+                        ok = True
+                    elif isinstance(p_, ast.Attribute) and p_.value is n and isinstance(g_, ast.Call) and g_.func is p_ \
+                            and p_.attr in (set(DICT_MUTATORS) | set(DICT_METHODS) | {"get"}):
+                        ok = True
+                    elif isinstance(p_, ast.Compare):
+                        ok = True
+                    elif isinstance(p_, (ast.For, ast.comprehension)) and p_.iter is n:
+                        ok = True
+                    elif isinstance(p_, ast.Call) and isinstance(p_.func, ast.Name) and p_.func.id in (CONSUMERS | {"enumerate"}) and n in p_.args:
+                        ok = True
+                    elif isinstance(p_, ast.Return) and (m == own_name or m not in params):
+                        ok = True
+                    elif isinstance(p_, ast.Call) and self.x3_ipf_arg(p_) is n:
+                        ok = True
+                    elif isinstance(p_, ast.Call) and isinstance(p_.func, ast.Name) and n in p_.args and self._scalar_callee(p_.func.id):
+                        ok = True
+                    elif isinstance(p_, (ast.If, ast.IfExp, ast.UnaryOp)):
+                        ok = True
+                    if not ok:
+                        raise Unsupported(f"{m} is updated in place and used where an alias could be created")
+            # a loop over the value may only replace the element it is at
+            for n in _walk_scope(body):
+                if isinstance(n, ast.For) and any(isinstance(x, ast.Name) and x.id == m for x in ast.walk(n.iter)):
+                    idx = None
+                    if isinstance(n.iter, ast.Call) and isinstance(n.iter.func, ast.Name) and n.iter.func.id == "enumerate" \
+                            and isinstance(n.target, ast.Tuple) and isinstance(n.target.elts[0], ast.Name):
+                        idx = n.target.elts[0].id
+                    for k in _walk_scope(n.body, into_exprs=True):
+                        if isinstance(k, ast.Subscript) and isinstance(k.ctx, ast.Store) and isinstance(k.value, ast.Name) and k.value.id == m:
+                            if not (idx is not None and isinstance(k.slice, ast.Name) and k.slice.id == idx and idx not in assigned):
+                                raise Unsupported(f"{m} is changed while it is iterated over")
+                        if isinstance(k, ast.Call) and isinstance(k.func, ast.Attribute) and isinstance(k.func.value, ast.Name) \
+                                and k.func.value.id == m and k.func.attr in (set(MUTATORS) | OTHER_MUTATORS):
+                            raise Unsupported(f"{m} is changed while it is iterated over")
+                        if isinstance(k, ast.Call):
+                            a = self.x3_ipf_arg(k)
+                            if a is not None and a.id == m:
+                                raise Unsupported(f"{m} is changed while it is iterated over")
+        for x, (lst, idx, loop) in enum_elems.items():
+            if x in assigned or idx in assigned:
+                self.enum_elems = {k: v for k, v in self.enum_elems.items() if k != x}
+
+    def x3_fresh_value(self, v):
+        """an expression whose value nothing else can refer to"""
+        if isinstance(v, (ast.List, ast.ListComp, ast.Dict, ast.DictComp)):
+            return True
+        if isinstance(v, ast.Call) and isinstance(v.func, ast.Name) and v.func.id not in self.locals:
+            if v.func.id in ("dict", "list", "sorted"):
+                return True
+            if v.func.id == "cast" and len(v.args) == 2:
+                return self.x3_fresh_value(v.args[1])
+            if v.func.id in self.x3_oracles():
+                return True                              # trusted: the external function builds a new value
+        if isinstance(v, ast.Call) and isinstance(v.func, ast.Attribute) and v.func.attr == "copy":
+            return True
+        return False
+
+    def x3_enter_loop(self, st, names, ind):
+        if len(names) == 2 and names[1] in self.enum_elems and self.enum_elems[names[1]][2] is st:
+            self.emit(ind, f"let mut {lname(names[1])} := {lname(names[1])}")
+
+    def x3_store(self, t, vterm, ind):
+        n = lname(t.value.id)
+        fn = "PyRt.dict_setitem" if self.x3_is_dict_name(t.value.id) else "PyRt.setitem"
+        self.emit(ind, f"{n} ← {fn} {n} {self.val(t.slice)} {vterm}")
+
+    def x3_rebind_ipf(self, call, ind):
+        """`f(x)` with f updating x in place: `x ← f x` (and the write-back when x is the element of a list being
+        enumerated); returns the name"""
+        a = self.x3_ipf_arg(call)
+        self._ipf_ok.add(id(call))
+        p, c = self.expr(call)
+        self.emit(ind, f"{lname(a.id)} ← {c}")
+        if a.id in self.enum_elems:
+            lst, idx, _ = self.enum_elems[a.id]
+            fn = "PyRt.dict_setitem" if self.x3_is_dict_name(lst) else "PyRt.setitem"
+            self.emit(ind, f"{lname(lst)} ← {fn} {lname(lst)} {lname(idx)} {lname(a.id)}")
+        elif a.id not in self.owned2:
+            raise Unsupported(f"{a.id} is updated in place by a call but is not an owned local")
+        return a.id
+
+    def x3_hoist(self, value, ind):
+        """value of a statement: in-place calls on a local that are the value itself or a direct argument of its
+        outermost call are done first (earlier arguments are evaluated before, as Python does); -> rewritten value or None"""
+        if not isinstance(value, ast.Call):
+            return None
+        if self.x3_ipf_arg(value) is not None and id(value) not in self._ipf_ok:
+            name = self.x3_rebind_ipf(value, ind)
+            return ast.copy_location(ast.Name(id=name, ctx=ast.Load()), value)
+        hit = [i for i, a in enumerate(value.args) if isinstance(a, ast.Call) and self.x3_ipf_arg(a) is not None and id(a) not in self._ipf_ok]
+        if not hit or value.keywords:
+            return None
+        if isinstance(value.func, ast.Attribute) and not isinstance(value.func.value, ast.Name):
+            return None
+        new_args = list(value.args)
+        for i, a in enumerate(value.args):
+            if i > hit[-1]:
+                break
+            if i in hit:
+                name = self.x3_rebind_ipf(a, ind)
+                new_args[i] = ast.copy_location(ast.Name(id=name, ctx=ast.Load()), a)
+            elif not isinstance(a, (ast.Constant, ast.Name)):
+                t = self.fresh("a")
+                p, c = self.expr(a)
+                self.emit(ind, f"let {t} := {c}" if p else f"let {t} ← {c}")
+                self._extra_bound = getattr(self, "_extra_bound", set()) | {t}
+                new_args[i] = ast.copy_location(ast.Name(id=t, ctx=ast.Load()), a)
+        return ast.copy_location(ast.Call(func=value.func, args=new_args, keywords=[]), value)
+
+    def x3_state_guard(self):
+        """the primitives of PyTok.lean mirror one text of the Tokenizer class"""
+        cls = getattr(importlib.import_module(STATE_CLASS[0]), STATE_CLASS[1])
+        if _class_digest(cls) != STATE_GUARD:
+            raise Unsupported(f"the source of {STATE_CLASS[1]} is not the text its run-time primitives mirror")
+
+    def x3_uses_state(self, nodes):
+        return self.state_param is not None and any(
+            isinstance(n, ast.Name) and n.id == self.state_param for st in nodes for n in ast.walk(st))
+
+    def x3_stmt(self, st, ind):
+        if self.x3_dead_message(st):
+            self.emit(ind, "pure ()")
+            return True
+        if isinstance(st, ast.Try):
+            # Lean's `try … catch` hands the handler the locals as they were when the `try` began; Python keeps what the body
+            # did before it raised.  Refuse a function in which that difference could be observed.
+            body_ = list(st.body)
+            if body_ and isinstance(body_[-1], (ast.Assign, ast.AnnAssign, ast.AugAssign, ast.Expr, ast.Return)):
+                body_ = body_[:-1]       # what the last simple statement changes is changed only if nothing raised
+            changed = {x for n in _walk_scope(body_) for x in _targets_of(n)}
+            for n in _walk_scope(body_):
+                if isinstance(n, ast.Expr) and isinstance(n.value, ast.Call) and isinstance(n.value.func, ast.Attribute) \
+                        and isinstance(n.value.func.value, ast.Name) and n.value.func.attr in (set(MUTATORS) | OTHER_MUTATORS):
+                    changed.add(n.value.func.value.id)
+                if isinstance(n, ast.For):
+                    changed |= {t.id for t in ast.walk(n.target) if isinstance(t, ast.Name)}
+            def loads(nodes):
+                return {x.id for b in nodes for sub in ([b] if not isinstance(b, ast.Raise) else [])
+                        for x in ast.walk(sub) if isinstance(x, ast.Name) and isinstance(x.ctx, ast.Load)}
+            seen = set()
+            for h in st.handlers:
+                seen |= loads(h.body)
+                if _falls_through(h.body):
+                    after = [n for n in _walk_scope(self.node.body) if getattr(n, "lineno", 0) > st.end_lineno
+                             and isinstance(n, ast.stmt)]
+                    seen |= loads(after)
+            if changed & seen:
+                raise Unsupported("a local changed inside a try block is read on the path through its handler: "
+                                  + ", ".join(sorted(changed & seen)))
+        if isinstance(st, ast.Try) and self.x3_uses_state(st.body):
+            # a handler would see the tokenizer as it was when the `try` began (state monad), not as Python leaves it
+            raise Unsupported(f"the {STATE_CLASS[1]} is used inside a try block")
+        if isinstance(st, ast.While):
+            if st.orelse:
+                raise Unsupported("while ... else")
+            self.has_while = True
+            if self.lean_name not in self.ctx.recursive:
+                self.ctx.loops.add(self.lean_name)
+                raise Unsupported("while loop (fuel is added on the next pass)")
+            done = self.fresh("done")
+            self.emit(ind, f"let mut {done} := false")
+            self.emit(ind, f"for __i in List.range (__fuel + 1) do")
+            if not (isinstance(st.test, ast.Constant) and st.test.value is True):
+                self.emit(ind + 1, f"if !({self.cond(st.test)}) then")
+                self.emit(ind + 2, f"{done} := true")
+                self.emit(ind + 2, "break")
+            saved = set(self.declared)
+            self.loop_stack = getattr(self, "loop_stack", []) + [done]
+            self.block(st.body, ind + 1)
+            self.loop_stack = self.loop_stack[:-1]
+            self.declared = saved | (self.declared & set(self.hoisted))
+            self.emit(ind, f'if !{done} then throw "RecursionError"')
+            return True
+        if isinstance(st, ast.With):
+            if len(st.items) != 1 or st.items[0].optional_vars is not None:
+                raise Unsupported("with statement other than one context manager without `as`")
+            c = st.items[0].context_expr
+            if not (isinstance(c, ast.Call) and isinstance(c.func, ast.Attribute) and isinstance(c.func.value, ast.Name)
+                    and c.func.value.id == self.state_param and c.func.attr == "enclosing_tokens" and len(c.args) == 2
+                    and all(k.arg == "around" for k in c.keywords)):
+                raise Unsupported("with statement other than tokenizer.enclosing_tokens(open, close, around=…)")
+            for n in _walk_scope(st.body):
+                if isinstance(n, (ast.Return, ast.Break, ast.Continue)):
+                    raise Unsupported("return / break / continue inside a with block")
+            self.x3_state_guard()
+            w = self.fresh("w")
+            op_, cl_ = self.val(c.args[0]), self.val(c.args[1])
+            self.emit(ind, f"let {w} ← PyTok.enclosing_open {op_}")
+            self.block(st.body, ind)
+            self.emit(ind, f"let _ ← PyTok.enclosing_close {w} {cl_}")
+            return True
+        if isinstance(st, ast.Assign) and len(st.targets) == 1 and isinstance(st.targets[0], ast.Subscript):
+            t = st.targets[0]
+            if isinstance(t.value, ast.Name) and t.value.id in getattr(self, "owned2", ()) and not isinstance(t.slice, ast.Slice):
+                v = self.fresh("v")
+                p, c = self.expr(st.value)
+                self.emit(ind, f"let {v} := {c}" if p else f"let {v} ← {c}")
+                self.x3_store(t, v, ind)
+                return True
+            raise Unsupported("assignment to a subscript of something that is not an owned local")
+        if isinstance(st, ast.AugAssign) and isinstance(st.target, ast.Subscript):
+            t = st.target
+            if isinstance(t.value, ast.Name) and t.value.id in getattr(self, "owned2", ()) and not isinstance(t.slice, ast.Slice):
+                k, v = self.fresh("k"), self.fresh("v")
+                getter = "PyRt.dict_getitem" if self.x3_is_dict_name(t.value.id) else "PyRt.getitem"
+                self.emit(ind, f"let {k} := {self.val(t.slice)}")
+                self.emit(ind, f"let {v} ← {self.binop_fn(st.op)} (← {getter} {lname(t.value.id)} {k}) {self.val(st.value)}")
+                n = lname(t.value.id)
+                fn = "PyRt.dict_setitem" if self.x3_is_dict_name(t.value.id) else "PyRt.setitem"
+                self.emit(ind, f"{n} ← {fn} {n} {k} {v}")
+                return True
+            raise Unsupported("augmented assignment to a subscript of something that is not an owned local")
+        if isinstance(st, (ast.Return, ast.Assign, ast.AnnAssign)) and getattr(st, "value", None) is not None and hasattr(self, "owned2"):
+            nv = self.x3_hoist(st.value, ind)
+            if nv is not None:
+                if isinstance(st, ast.Return):
+                    new = ast.Return(value=nv)
+                elif isinstance(st, ast.Assign):
+                    new = ast.Assign(targets=st.targets, value=nv)
+                else:
+                    new = ast.AnnAssign(target=st.target, annotation=st.annotation, value=nv, simple=st.simple)
+                self.stmt(ast.copy_location(new, st), ind)
+                return True
+        return False
+
+    def x3_expr_stmt(self, e, ind):
+        if isinstance(e, ast.Call) and isinstance(e.func, ast.Attribute):
+            d = _dotted(e.func)
+            if d and d[0] not in self.locals and ".".join(d) in self.x3_oracles():
+                p, c = self.expr(e)              # an external function called for its exceptions
+                self.emit(ind, f"let _ ← {c}")
+                return True
+        if isinstance(e, ast.Call) and isinstance(e.func, ast.Attribute) and isinstance(e.func.value, ast.Name) \
+                and self.state_param is not None and e.func.value.id == self.state_param:
+            p, c = self.expr(e)                  # a tokenizer method called for its effect
+            self.emit(ind, f"let _ ← {c}")
+            return True
+        if isinstance(e, ast.Call) and hasattr(self, "owned2") and self.x3_ipf_arg(e) is not None:
+            self.x3_rebind_ipf(e, ind)
+            return True
+        if isinstance(e, ast.Call) and isinstance(e.func, ast.Attribute) and isinstance(e.func.value, ast.Name) \
+                and e.func.attr in DICT_MUTATORS and e.func.value.id in getattr(self, "owned2", ()) and self.x3_is_dict_name(e.func.value.id):
+            fn, ar = DICT_MUTATORS[e.func.attr]
+            if len(e.args) != ar or e.keywords:
+                raise Unsupported(f"arguments of {e.func.attr}")
+            n = lname(e.func.value.id)
+            self.emit(ind, f"{n} ← {fn} {n} " + " ".join(self.val(a) for a in e.args))
+            return True
+        if isinstance(e, ast.Call):
+            m = _nested_mutation(ast.Expr(value=e))
+            if m is not None and m in getattr(self, "nested", ()):
+                fn, ar = MUTATORS[e.func.attr]
+                if len(e.args) != ar or e.keywords:
+                    raise Unsupported(f"arguments of {e.func.attr}")
+                n = lname(m)
+                i = self.fresh("i")
+                self.emit(ind, f"let {i} := {self.val(e.func.value.slice)}")
+                # Python's order: the element, then the arguments, then the method
+                self.emit(ind, f"{n} ← PyRt.setitem {n} {i} (← {fn} (← PyRt.getitem {n} {i}) " + " ".join(self.val(a) for a in e.args) + ")")
+                return True
+        return False
+
+    def x3_foreign(self, base):
+        """a parameter annotated with a class of another library (`sys._version_info`): certainly not a tracked class"""
+        if isinstance(base, ast.Name) and base.id not in self.param_assigned_names():
+            for a in self.node.args.args + self.node.args.kwonlyargs:
+                if a.arg == base.id and isinstance(a.annotation, ast.Attribute):
+                    d = _dotted(a.annotation)
+                    return bool(d) and inspect.ismodule(self.globals.get(d[0])) and not self.globals[d[0]].__name__.startswith("packaging")
+        return False
+
+    def x3_guard_class(self, e):
+        """`if not isinstance(x, C): return …` at the top level of the body, before this use: x is a C from there on"""
+        for st in self.node.body:
+            if isinstance(st, ast.If) and not st.orelse and isinstance(st.test, ast.UnaryOp) and isinstance(st.test.op, ast.Not) \
+                    and isinstance(st.test.operand, ast.Call) and isinstance(st.test.operand.func, ast.Name) \
+                    and st.test.operand.func.id == "isinstance" and len(st.test.operand.args) == 2 \
+                    and isinstance(st.test.operand.args[0], ast.Name) and st.test.operand.args[0].id == e.id \
+                    and isinstance(st.test.operand.args[1], ast.Name) and not _falls_through(st.body) \
+                    and getattr(e, "lineno", 0) > st.end_lineno:
+                v = self.globals.get(st.test.operand.args[1].id)
+                if inspect.isclass(v) and self.ctx.is_tracked(v):
+                    return v
+        return None
+
+    def x3_fn_table(self, name):
+        """a module-level constant dict whose values are functions (`operator.xx` or lambdas): -> (keys, dict node)"""
+        d = self.globals.get(name)
+        if not isinstance(d, dict) or not d or not all(isinstance(k, str) and callable(v) for k, v in d.items()):
+            return None
+        import sys as _sys
+        mod = _sys.modules.get(self.pyfunc.__module__)
+        try:
+            tree = ast.parse(inspect.getsource(mod))
+        except (OSError, TypeError, SyntaxError):
+            return None
+        node = None
+        for st in tree.body:
+            if isinstance(st, (ast.Assign, ast.AnnAssign)) and name in _targets_of(st) and isinstance(st.value, ast.Dict):
+                node = st.value
+        if node is None or [k.value if isinstance(k, ast.Constant) else None for k in node.keys] != list(d.keys()):
+            return None
+        return list(d.keys()), node
+
+    def x3_fn_table_defs(self, name, arity):
+        """`<name>__get key` (the callable stored under key, as a reference, or None) and `<name>__call f a0 …`"""
+        keys, node = self.x3_fn_table(name)
+        get, call = f"{name}__get", f"{name}__call"
+        if get not in self.ctx.dispatchers:
+            test = " || ".join(f"PyVal.eq key {lconst(k)}" for k in keys)
+            self.ctx.dispatchers[get] = (f"def {get} (key : PyVal) : M PyVal :=\n  if !(PyRt.hashable key) then throw PyRt.typeError else\n"
+                                         f"  if {test} then pure (PyRt.fn_ref \"{name}\" key) else pure PyVal.none")
+            self.ctx.dispatcher_deps[get] = set()
+            args = [f"a{i}" for i in range(arity)]
+            body = ""
+            saved_locals, saved_bound = self.locals, self._bound
+            try:
+                self.locals = set()
+                for k, v in zip(keys, node.values):
+                    if isinstance(v, ast.Lambda):
+                        ps = [a.arg for a in v.args.args]
+                        if len(ps) != arity or v.args.vararg or v.args.kwarg or v.args.defaults:
+                            raise Unsupported(f"{name}[{k!r}]: a lambda with other than {arity} plain parameters")
+                        self._bound = saved_bound + [set(ps)]
+                        inner = self.mval(v.body)
+                        self._bound = saved_bound
+                        code = "(do " + "; ".join(f"let {lname(q)} := {a}" for q, a in zip(ps, args)) + f"; {inner})"
+                    elif isinstance(v, ast.Attribute) and isinstance(v.value, ast.Name) and v.value.id == "operator" \
+                            and getattr(self.globals.get("operator"), "__name__", "") == "operator" and v.attr in OPERATOR_FN and arity == 2:
+                        code = "(" + OPERATOR_FN[v.attr].format(a=args[0], b=args[1]) + ")"
+                    else:
+                        raise Unsupported(f"{name}[{k!r}] is neither a lambda nor operator.<comparison>")
+                    body += f"if PyVal.eq key {lconst(k)} then {code} else "
+            finally:
+                self.locals, self._bound = saved_locals, saved_bound
+            self.ctx.dispatchers[call] = (f"def {call} (f {' '.join(args)} : PyVal) : M PyVal := do\n  let key ← PyRt.fn_key \"{name}\" f\n"
+                                          f"  {body}throw \"PyRtUnsupported\"")
+            self.ctx.dispatcher_deps[call] = set()
+        for d in (get, call):
+            self.ctx.deps.setdefault(self.ctx.current, set()).add(d)
+        return get, call
+
+    def x3_local_fn_table(self, name):
+        """local `name` bound exactly once, by `name = <TABLE>.get(k)`: the table's name"""
+        binds = [n for n in _walk_scope(self.node.body) if name in _targets_of(n)]
+        if len(binds) == 1 and isinstance(binds[0], (ast.Assign, ast.AnnAssign)) and binds[0].value is not None:
+            v = binds[0].value
+            if isinstance(v, ast.Call) and isinstance(v.func, ast.Attribute) and v.func.attr == "get" and isinstance(v.func.value, ast.Name) \
+                    and v.func.value.id not in self.locals and len(v.args) == 1 and self.x3_fn_table(v.func.value.id) is not None:
+                return v.func.value.id
+        return None
+
+    def x3_dyn_method(self, attr, nargs):
+        """method `attr` of a value whose class is not known statically: a dispatcher over every tracked class that has it"""
+        name = f"{attr}__dyn"
+        if name not in self.ctx.dispatchers:
+            args = [f"a{i}" for i in range(nargs)]
+            body, deps = "", set()
+            for k in self.ctx.tracked:
+                impl = self.ctx.lookup(k, attr)
+                if not inspect.isfunction(impl):
+                    continue
+                if len(inspect.signature(impl).parameters) != nargs + 1:
+                    raise Unsupported(f"method .{attr}: arity differs between classes")
+                fn = self.ctx.require(impl)
+                deps.add(fn)
+                body += f'if PyRt.className self == "{k.__name__}" then {self.call_selected(fn, ["self"] + args)} else '
+            if not deps:
+                raise Unsupported(f"method {attr}")
+            self.ctx.dispatchers[name] = f"def {name} (self {' '.join(args)} : PyVal) : M PyVal :=\n  {body}throw PyRt.attributeError"
+            self.ctx.dispatcher_deps[name] = deps
+        self.ctx.deps.setdefault(self.ctx.current, set()).add(name)
+        return name
+
+    def x3_ext_class(self, e):
+        """the class of another library an expression is an instance of, when it is a constructor call through an oracle"""
+        if isinstance(e, ast.Call) and isinstance(e.func, ast.Attribute):
+            d = _dotted(e.func)
+            if d and d[0] not in self.locals and ".".join(d) in self.x3_oracles():
+                obj = self.globals.get(d[0])
+                for part in d[1:]:
+                    obj = getattr(obj, part, None)
+                if inspect.isclass(obj):
+                    return obj.__name__
+        return None
+
+    def x3_table(self, e):
+        """a module-level table that is regenerated as data: its run-time name, else None"""
+        if isinstance(e, ast.Name) and e.id not in self.locals and e.id not in self.bound_stack() \
+                and (self.pyfunc.__module__, e.id) in TABLE_GLOBALS and isinstance(self.globals.get(e.id), dict):
+            self.ctx.imports.add(TABLE_IMPORT)
+            return TABLE_GLOBALS[(self.pyfunc.__module__, e.id)]
+        return None
+
+    def x3_in(self, lv, r):
+        """`x in <set display of constants>` / `x in <regenerated table>`: an `M Bool` term, else None"""
+        if isinstance(r, ast.Set) and self.pyfunc.__module__ in SET_HASH_CHECK_MODULES \
+                and all(isinstance(x, ast.Constant) and isinstance(x.value, (str, int)) for x in r.elts):
+            return "PyRt.contains_set (PyVal.tuple [" + ", ".join(lconst(x.value) for x in r.elts) + f"]) {lv}"
+        t = self.x3_table(r)
+        if t is not None:
+            return f'PyLic.tbl_has "{t}" {lv}'
+        if self.x3_is_dict_expr(r):
+            return f"PyRt.dict_contains {self.val(r)} {lv}"
+        if isinstance(r, ast.Name) and r.id not in self.locals and r.id not in self.bound_stack() and isinstance(self.globals.get(r.id), dict):
+            return f"PyRt.dict_contains {self.val(r)} {lv}"
+        return None
+
+    def x3_dead_message(self, st):
+        """`name = f"…"` whose only uses are arguments of `raise Cls(name)`: the string is never observed (exceptions carry
+        their class only) and formatting names cannot raise"""
+        if not (isinstance(st, ast.Assign) and len(st.targets) == 1 and isinstance(st.targets[0], ast.Name)
+                and isinstance(st.value, ast.JoinedStr)):
+            return False
+        for v in st.value.values:
+            if isinstance(v, ast.FormattedValue) and not (isinstance(v.value, ast.Name) and v.format_spec is None):
+                return False
+        name = st.targets[0].id
+        parents = {}
+        for n in _walk_scope(self.node.body, into_exprs=True):
+            for c in ast.iter_child_nodes(n):
+                parents[c] = n
+        for n in _walk_scope(self.node.body, into_exprs=True):
+            if isinstance(n, ast.Name) and n.id == name and isinstance(n.ctx, ast.Load):
+                p_ = parents.get(n)
+                if not (isinstance(p_, ast.Call) and isinstance(parents.get(p_), ast.Raise) and parents[p_].exc is p_):
+                    return False
+        return True
+
+    def x3_call(self, e, kws):
+        f = e.func
+        oracles = self.x3_oracles()
+        if isinstance(f, ast.Attribute) and f.attr == "split" and not e.args and not kws:
+            self.ctx.imports.add("PkgModel.PyLic")
+            return False, f"PyLic.str_split0 {self.val(f.value)}"
+        if isinstance(f, ast.Attribute) and f.attr == "translate" and len(e.args) == 1 and not kws and isinstance(e.args[0], ast.Name) \
+                and e.args[0].id not in self.locals:
+            import string as _string
+            if self.globals.get(e.args[0].id) == str.maketrans(_string.ascii_uppercase, _string.ascii_lowercase):
+                self.ctx.imports.add("PkgModel.PyLic")
+                return False, f"PyLic.ascii_lower {self.val(f.value)}"
+            raise Unsupported("str.translate with a table other than the ASCII lower-casing one")
+        if isinstance(f, ast.Attribute) and f.attr == "match" and isinstance(f.value, ast.Name) and f.value.id not in self.locals \
+                and type(self.globals.get(f.value.id)).__name__ == "Pattern" and len(e.args) == 1 and not kws:
+            pat = self.globals[f.value.id]
+            if (pat.pattern, pat.flags) in MATCH_PATTERNS:
+                fn, imp = MATCH_PATTERNS[(pat.pattern, pat.flags)]
+                self.ctx.imports.add(imp)
+                return False, f"{fn} {self.val(e.args[0])}"
+        if isinstance(f, ast.Attribute) and f.attr == "strip" and not e.args and not kws and self.pyfunc.__module__ in UNICODE_STRIP:
+            fn, imp = UNICODE_STRIP[self.pyfunc.__module__]
+            self.ctx.imports.add(imp)
+            return False, f"{fn} {self.val(f.value)}"
+        if isinstance(f, ast.Attribute) and f.attr == "lower" and not e.args and not kws and "str.lower" in oracles:
+            return False, f'PyRt.ext_call {self.use_ext()} "str.lower" [{self.val(f.value)}]'
+        if isinstance(f, ast.Attribute):
+            d = _dotted(f)
+            if d and d[0] not in self.locals and d[0] not in self.bound_stack() and ".".join(d) in oracles \
+                    and not any(isinstance(a, ast.Starred) for a in e.args):
+                obj = self.globals.get(d[0])
+                for part in d[1:]:
+                    obj = getattr(obj, part, None)
+                if inspect.isclass(obj) and (obj.__module__ or "").startswith("packaging") and inspect.isfunction(self.ctx.lookup(obj, "__init__")):
+                    args = self.bind_args(self.ctx.lookup(obj, "__init__"), e.args, kws, skip_self=True)
+                elif inspect.isclass(obj):
+                    args = [self.val(a) for a in e.args]          # a class of another library: positional arguments as given
+                    if kws:
+                        raise Unsupported("keyword arguments of an external constructor")
+                elif callable(obj):
+                    try:
+                        args = self.bind_args(obj, e.args, kws)
+                    except (TypeError, ValueError):
+                        raise Unsupported("signature of an external function")
+                else:
+                    raise Unsupported("oracle name that is not callable")
+                return False, f'PyRt.ext_call {self.use_ext()} "{".".join(d)}" [' + ", ".join(args) + "]"
+            xc = self.x3_ext_class(f.value)
+            if xc is not None:
+                key = f"{xc}.{f.attr}"
+                if key not in oracles or kws:
+                    raise Unsupported(f"method .{f.attr} of an external {xc}")
+                return False, f'PyRt.ext_call {self.use_ext()} "{key}" [' + ", ".join([self.val(f.value)] + [self.val(a) for a in e.args]) + "]"
+        if isinstance(f, ast.Name) and f.id == "zip" and f.id not in self.locals and len(e.args) == 2 and not kws:
+            return False, f"PyRt.zip2 {self.val(e.args[0])} {self.val(e.args[1])}"
+        if isinstance(f, ast.Attribute) and isinstance(f.value, ast.Name) and f.value.id == self.state_param \
+                and f.value.id not in self.bound_stack():
+            if f.attr not in STATE_METHODS:
+                raise Unsupported(f"method .{f.attr} of the {STATE_CLASS[1]}")
+            self.x3_state_guard()
+            fn, npos, kwd = STATE_METHODS[f.attr]
+            if any(isinstance(a, ast.Starred) for a in e.args):
+                raise Unsupported("*args in a call")
+            args = [self.val(a) for a in e.args[:npos]]
+            if len(args) < npos:
+                raise Unsupported(f"arguments of .{f.attr}")
+            for k, d in kwd.items():
+                args.append(self.val(kws[k]) if k in kws else d)
+            return False, fn + "".join(" " + a for a in args)
+        if isinstance(f, ast.Name) and f.id not in self.locals and f.id not in self.bound_stack():
+            v = self.globals.get(f.id)
+            if inspect.isfunction(v) and (v.__module__ or "").startswith("packaging") and self.ctx.is_state_fn(v):
+                if not e.args or any(isinstance(a, ast.Starred) for a in e.args):
+                    raise Unsupported("call of a parser function without its tokenizer")
+                a0 = e.args[0]
+                ln = self.ctx.lean_name_of(v)
+                if ln is not None:
+                    self.ctx.need(v)
+                else:
+                    ln = self.ctx.require(v)
+                rest = self.bind_args(v, e.args[1:], kws, skip_self=True)
+                term = self.call_selected(ln, rest)
+                if isinstance(a0, ast.Name) and a0.id == self.state_param:
+                    return False, term
+                if isinstance(a0, ast.Call) and isinstance(a0.func, ast.Name) and a0.func.id == STATE_CLASS[1] \
+                        and len(a0.args) == 1 and len(a0.keywords) == 1 and a0.keywords[0].arg == "rules" \
+                        and isinstance(a0.keywords[0].value, ast.Name) and a0.keywords[0].value.id == "DEFAULT_RULES" \
+                        and self.state_param is None:
+                    self.x3_state_guard()
+                    self.ctx.imports.add(STATE_IMPORT)
+                    src = self.val(a0.args[0])
+                    return False, f"PyTok.run ({term}) (← PyTok.new {src})"
+                raise Unsupported("a parser function called with something other than the tokenizer at hand")
+            if inspect.isclass(v) and self.ctx.is_tracked(v) and issubclass(v, tuple) and hasattr(v, "_fields") \
+                    and not inspect.isfunction(self.ctx.lookup(v, "__init__")):
+                if kws or len(e.args) != len(v._fields) or any(isinstance(a, ast.Starred) for a in e.args):
+                    raise Unsupported("named tuple built other than from all its fields in order")
+                fields = ", ".join(f'("{k}", {self.val(a)})' for k, a in zip(v._fields, e.args))
+                return True, f'(PyVal.obj "{v.__name__}" [{fields}])' 
+            if f.id in oracles:
+                if any(isinstance(a, ast.Starred) for a in e.args):
+                    raise Unsupported("*args in a call")
+                if inspect.isclass(v):
+                    args = self.bind_args(self.ctx.lookup(v, "__init__"), e.args, kws, skip_self=True)
+                else:
+                    args = self.bind_args(v, e.args, kws)
+                return False, f'PyRt.ext_call {self.use_ext()} "{f.id}" [' + ", ".join(args) + "]"
+            if f.id == "cast" and getattr(v, "__module__", "") == "typing" and len(e.args) == 2 and not kws:
+                return self.expr(e.args[1])
+            if hasattr(self, "owned2") and self.x3_ipf_arg(e) is not None and id(e) not in self._ipf_ok:
+                raise Unsupported("a call that updates a local in place inside a larger expression")
+        if isinstance(f, ast.Name) and f.id in self.locals and f.id not in self.bound_stack():
+            tab = self.x3_local_fn_table(f.id)
+            if tab is not None:
+                if kws or any(isinstance(a, ast.Starred) for a in e.args):
+                    raise Unsupported("keyword / starred arguments of a callable taken from a table")
+                _, call = self.x3_fn_table_defs(tab, len(e.args))
+                p, c = self.name(f)
+                recv = c if p else f"(← {c})"
+                return False, f"{call} {recv}" + "".join(" " + self.val(a) for a in e.args)
+        if isinstance(f, ast.Attribute):
+            if isinstance(f.value, ast.Name) and f.value.id not in self.locals and f.value.id not in self.bound_stack() \
+                    and f.attr == "get" and len(e.args) == 1 and not kws and self.x3_fn_table(f.value.id) is not None:
+                get, _ = self.x3_fn_table_defs(f.value.id, 2)
+                return False, f"{get} {self.val(e.args[0])}"
+            c = self.static_class(f.value)
+            if c is not None and f"{c.__name__}.{f.attr}" in oracles:
+                impl = self.ctx.lookup(c, f.attr)
+                recv = self.val(f.value)
+                args = self.bind_args(impl, e.args, kws, skip_self=True)
+                return False, f'PyRt.ext_call {self.use_ext()} "{c.__name__}.{f.attr}" [' + ", ".join([recv] + args) + "]"
+            if self.x3_is_dict_expr(f.value):
+                if f.attr == "get" and 1 <= len(e.args) <= 2 and not kws:
+                    recv = self.val(f.value)
+                    k = self.val(e.args[0])
+                    d = self.val(e.args[1]) if len(e.args) == 2 else "PyVal.none"
+                    return False, f"PyRt.dict_get {recv} {k} {d}"
+                if f.attr in DICT_METHODS and len(e.args) == DICT_METHODS[f.attr][1] and not kws:
+                    return False, f"{DICT_METHODS[f.attr][0]} {self.val(f.value)}"
+            dotted = _dotted(f)
+            is_module = dotted and dotted[0] not in self.locals and inspect.ismodule(self.globals.get(dotted[0]))
+            if is_module and len(dotted) == 2 and (self.globals[dotted[0]].__name__, dotted[1]) in EXTERNAL_MODULE_CALLS \
+                    and len(e.args) == 1 and not kws:
+                fn, imp = EXTERNAL_MODULE_CALLS[(self.globals[dotted[0]].__name__, dotted[1])]
+                self.ctx.imports.add(imp)
+                return False, f"{fn} {self.val(e.args[0])}"
+            is_global = isinstance(f.value, ast.Name) and f.value.id not in self.locals and f.value.id not in self.bound_stack()
+            if c is None and not is_module and not is_global and f.attr not in METHODS and f.attr not in MUTATORS and self.ctx.defined_by_tracked(f.attr) \
+                    and not kws and not any(isinstance(a, ast.Starred) for a in e.args):
+                recv = self.val(f.value)
+                name = self.x3_dyn_method(f.attr, len(e.args))
+                return False, f"{name} {recv}" + "".join(" " + self.val(a) for a in e.args)
+        return None
+    # ================================================================================================ x3 end
 
 
 _CMP = {ast.Lt: "lt", ast.LtE: "le", ast.Gt: "gt", ast.GtE: "ge"}
@@ -2047,6 +3072,29 @@ def _is_fresh_list(v):
     return False
 
 
+def _class_digest(cls):
+    """x3: sha256 over the ast of a class's methods, doc strings and comments aside"""
+    import hashlib
+    tree = ast.parse(textwrap.dedent(inspect.getsource(cls))).body[0]
+    parts = []
+    for st in tree.body:
+        if isinstance(st, ast.FunctionDef):
+            body = st.body
+            if body and isinstance(body[0], ast.Expr) and isinstance(body[0].value, ast.Constant) and isinstance(body[0].value.value, str):
+                body = body[1:]
+            parts.append(st.name + ast.dump(st.args) + "".join(ast.dump(x) for x in body) + "".join(ast.dump(d) for d in st.decorator_list))
+    return hashlib.sha256("\n".join(parts).encode()).hexdigest()
+
+
+def _nested_mutation(n):
+    """x3: statement `name[i].append(x)` (a list method on an element of a local list): the name, else None"""
+    if isinstance(n, ast.Expr) and isinstance(n.value, ast.Call) and isinstance(n.value.func, ast.Attribute) \
+            and n.value.func.attr in MUTATORS and isinstance(n.value.func.value, ast.Subscript) \
+            and isinstance(n.value.func.value.value, ast.Name) and not isinstance(n.value.func.value.slice, ast.Slice):
+        return n.value.func.value.value.id
+    return None
+
+
 def _falls_through(stmts):
     """can control reach the end of this statement list?  (conservative: True when in doubt)"""
     for st in stmts:
@@ -2066,7 +3114,7 @@ def _targets_of(n):
     elif isinstance(n, (ast.AnnAssign, ast.AugAssign)):
         if isinstance(n, ast.AnnAssign) and n.value is None:
             return out
-        out += [x.id for x in ast.walk(n.target) if isinstance(x, ast.Name)]
+        out += [x.id for x in ast.walk(n.target) if isinstance(x, ast.Name) and isinstance(x.ctx, ast.Store)]
     elif isinstance(n, ast.NamedExpr):
         raise Unsupported("assignment expression")
     return out
@@ -2103,6 +3151,10 @@ class Ctx:
         self.current = None
         self.imports = set()       # extra Lean modules the generated file needs
         self.uses_env = set()      # lean names of functions that take the environment
+        self.uses_ext = set()      # x3: lean names of functions that take the oracle
+        self.recursive = {}        # x3: lean name -> id of its recursive group (functions that call each other)
+        self.state_fns = set()     # x3: lean names of functions that run in the state monad
+        self.loops = set()         # x3: lean names of functions with a `while` loop (they take fuel as well)
         self.dispatchers = {}      # name -> Lean definition text
         self.dispatcher_deps = {}
         self.tracked = []
@@ -2174,6 +3226,49 @@ class Ctx:
         return None
 
     # -- functions
+    def is_state_fn(self, f):
+        """x3: the first parameter is annotated with the state class (`tokenizer: Tokenizer`)"""
+        try:
+            node = ast.parse(textwrap.dedent(inspect.getsource(f))).body[0]
+        except (OSError, SyntaxError, TypeError):
+            return False
+        if not isinstance(node, ast.FunctionDef) or not node.args.args:
+            return False
+        ann = node.args.args[0].annotation
+        if isinstance(ann, ast.Constant) and isinstance(ann.value, str):
+            ann = ast.Name(id=ann.value, ctx=ast.Load())
+        if not isinstance(ann, ast.Name) or ann.id != STATE_CLASS[1]:
+            return False
+        c = f.__globals__.get(ann.id)
+        return inspect.isclass(c) and c.__module__ == STATE_CLASS[0]
+
+    def ipf_of(self, f):
+        """x3: index of the parameter that function f updates in place *and* returns at every `return` (the function is
+        then translated as returning the updated value, and its callers rebind what they passed), else None"""
+        cache = self.__dict__.setdefault("_ipf", {})
+        if id(f) in cache:
+            return cache[id(f)]
+        cache[id(f)] = None
+        try:
+            node = ast.parse(textwrap.dedent(inspect.getsource(f))).body[0]
+        except (OSError, SyntaxError, TypeError):
+            return None
+        if not isinstance(node, ast.FunctionDef):
+            return None
+        names = [a.arg for a in node.args.args]
+        hit = set()
+        for n in _walk_scope(node.body, into_exprs=True):
+            if isinstance(n, ast.Subscript) and isinstance(n.ctx, ast.Store) and isinstance(n.value, ast.Name) and n.value.id in names:
+                hit.add(n.value.id)
+            if isinstance(n, ast.Call) and isinstance(n.func, ast.Attribute) and isinstance(n.func.value, ast.Name) \
+                    and n.func.value.id in names and n.func.attr in (set(MUTATORS) | OTHER_MUTATORS):
+                hit.add(n.func.value.id)
+        rets = [n for n in _walk_scope(node.body) if isinstance(n, ast.Return)]
+        if len(hit) == 1 and rets and all(isinstance(r.value, ast.Name) and r.value.id in hit for r in rets) \
+                and not _falls_through(node.body):
+            cache[id(f)] = names.index(next(iter(hit)))
+        return cache[id(f)]
+
     def lean_name_of(self, f):
         return self.objs.get(id(f))
 
@@ -2198,13 +3293,19 @@ def _arity(pyfunc):
 
 def generate(selected=None):
     uses_env = set()
-    for _ in range(6):                   # which functions need `env` is a fixed point over the call graph
+    uses_ext, recursive = set(), {}
+    for _ in range(8):                   # which functions need `env` is a fixed point over the call graph
         ctx = Ctx(selected or SELECTED)
         ctx.uses_env = set(uses_env)
+        ctx.uses_ext, ctx.recursive = set(uses_ext), dict(recursive)        # x3
         defs, info, arities = _translate_all(ctx)
-        if ctx.uses_env == uses_env:
+        rec = _recursive_groups(ctx)
+        for n in ctx.loops:                     # a `while` loop is bounded by fuel too
+            rec.setdefault(n, n)
+        if ctx.uses_env == uses_env and ctx.uses_ext == uses_ext and rec == recursive:
             break
         uses_env = set(ctx.uses_env)
+        uses_ext, recursive = set(ctx.uses_ext), rec
     return _assemble(ctx, defs, info, arities)
 
 
@@ -2237,10 +3338,17 @@ def _translate_all(ctx):
             if n is None:
                 n = 1
                 arities[lean_name] = n
+            monad = "M"
+            if obj is not None and ctx.is_state_fn(obj):            # x3
+                ctx.state_fns.add(lean_name)
+                ctx.imports.add(STATE_IMPORT)
+                n -= 1
+                monad = STATE_MONAD
             params = " ".join(f"_a{i}" for i in range(n))
             env = "(_env : PyRt.Env) " if lean_name in ctx.uses_env else ""
+            env += "(_ext : PyRt.Oracle) " if lean_name in ctx.uses_ext else ""
             text = (f"/-- NOT TRANSLATED: {err} -/\n"
-                    f"def {lean_name} {env}" + (f"({params} : PyVal) " if n else "") + ': M PyVal := throw "PySrcUnsupported"')
+                    f"def {lean_name} {env}" + (f"({params} : PyVal) " if n else "") + f': {monad} PyVal := throw "PySrcUnsupported"')
             info[lean_name] = {"supported": False, "why": err}
         else:
             info[lean_name] = {"supported": True}
@@ -2259,10 +3367,7 @@ def _runtime_names():
         from pathlib import Path as _Path
         names = set()
         root = _Path(__file__).resolve().parent.parent.parent / "lean" / "PkgModel"
-        for f in ("PyRt.lean", "PyRx.lean", "PyObj.lean"):
-            fp = root / f
-            if not fp.exists():
-                continue
+        for fp in sorted(root.glob("Py?*.lean")):          # PyRt, PyRx, PyObj, PyTok, PyLic, … (not Py.lean)
             txt = fp.read_text()
             for m in _re.finditer(r"^\s*(?:@\[[^\]]*\]\s*)?(?:private\s+|protected\s+|partial\s+|noncomputable\s+)*"
                                   r"(?:def|abbrev|structure|inductive|class|instance|opaque|theorem)\s+([^\s:({\[]+)", txt, _re.M):
@@ -2278,50 +3383,125 @@ def _missing_runtime(text):
     known = _runtime_names()
     if not known:
         return []
-    used = set(_re.findall(r"\bPy(?:Rt|Rx|Obj)\.([A-Za-z_][\w']*)", text))
+    used = set(_re.findall(r"\bPy[A-Z]\w*\.([A-Za-z_][\w']*)", text))
     return sorted(u for u in used if u not in known)
 
 
+def _sccs(ctx):
+    """x3: strongly connected components of the call graph (functions and dispatcher definitions), callees first"""
+    nodes = [n for n, _, _ in ctx.funcs] + list(ctx.dispatchers)
+    def succ(n):
+        return sorted(ctx.dispatcher_deps[n] if n in ctx.dispatchers else ctx.deps.get(n, ()))
+    index, low, on, stack, out = {}, {}, set(), [], []
+    def strong(v):
+        index[v] = low[v] = len(index)
+        stack.append(v)
+        on.add(v)
+        for w in succ(v):
+            if w not in index:
+                strong(w)
+                low[v] = min(low[v], low[w])
+            elif w in on:
+                low[v] = min(low[v], index[w])
+        if low[v] == index[v]:
+            comp = []
+            while True:
+                w = stack.pop()
+                on.discard(w)
+                comp.append(w)
+                if w == v:
+                    break
+            out.append(list(reversed(comp)))
+    for n in nodes:
+        if n not in index:
+            strong(n)
+    return out, succ
+
+
+def _recursive_groups(ctx):
+    """x3: lean name -> group id, for the functions that call themselves or each other"""
+    comps, succ = _sccs(ctx)
+    rec = {}
+    for comp in comps:
+        if len(comp) > 1 or comp[0] in succ(comp[0]):
+            gid = sorted(comp)[0]
+            for n in comp:
+                rec[n] = gid
+    return rec
+
+
 def _assemble(ctx, defs, info, arities):
-    # order by dependencies (calls between selected functions); recursion is not supported
-    order, state = [], {}
-
-    def visit(n, stack=()):
-        if state.get(n) == 2:
-            return
-        if state.get(n) == 1:
-            raise Unsupported("recursion between selected functions: " + " -> ".join(stack + (n,)))
-        state[n] = 1
-        for d in sorted(ctx.dispatcher_deps[n] if n in ctx.dispatchers else ctx.deps.get(n, ())):
-            visit(d, stack + (n,))
-        state[n] = 2
-        order.append(n)
-
-    for lean_name, _, _ in ctx.funcs:
-        visit(lean_name)
+    # order by dependencies (calls between selected functions); a group of functions that call each other becomes a
+    # `mutual` block of fuel-indexed definitions followed by the entry points (x3)
+    comps, succ = _sccs(ctx)
     out = ["import PkgModel.PyRt"] + [f"import {m}" for m in sorted(ctx.imports)] + [
            "/-! GENERATED by harness/translators/pysrc.py from the current source of the selected functions — do not edit. -/",
            "set_option linter.unusedVariables false",
            "namespace Gen.PySrc", "open PyRt", ""]
-    for n in order:
-        if n in ctx.dispatchers:
-            out.append("/-- dynamic dispatch on the run-time class (a tracked subclass overrides the attribute) -/")
-            out.append(ctx.dispatchers[n])
+    order = []
+    for comp in comps:
+        recursive = len(comp) > 1 or comp[0] in succ(comp[0]) or comp[0] in ctx.recursive
+        if not recursive:
+            n = comp[0]
+            if n in ctx.dispatchers:
+                out.append("/-- dynamic dispatch on the run-time class / a table of callables -/")
+                out.append(ctx.dispatchers[n])
+                out.append("")
+                continue
+            order.append(n)
+            out.append(f"def {n}_supported : Bool := {'true' if info[n]['supported'] else 'false'}")
+            out.append(defs[n])
             out.append("")
             continue
-        sup = info[n]["supported"]
-        out.append(f"def {n}_supported : Bool := {'true' if sup else 'false'}")
-        out.append(defs[n])
+        if any(n in ctx.dispatchers for n in comp):
+            raise Unsupported("recursion through a dispatcher definition: " + " -> ".join(comp))
+        comp = [n for n, _, _ in ctx.funcs if n in comp]            # source order
+        good = [n for n in comp if info[n]["supported"] and ctx.recursive.get(n) is not None]
+        for n in comp:
+            order.append(n)
+            sup = n in good
+            out.append(f"def {n}_supported : Bool := {'true' if sup else 'false'}")
+            if not sup:                                  # a stub, ahead of the block (it calls nothing)
+                k = arities[n] - (1 if n in ctx.state_fns else 0)
+                monad = STATE_MONAD if n in ctx.state_fns else "M"
+                env = ("(_env : PyRt.Env) " if n in ctx.uses_env else "") + ("(_ext : PyRt.Oracle) " if n in ctx.uses_ext else "")
+                why = info[n].get("why") or "the group of recursive functions was not stable"
+                out.append(f"/-- NOT TRANSLATED: {why} -/")
+                out.append(f"def {n}__fuel {env}(_fuel : Nat) " + (f"({' '.join(f'_a{i}' for i in range(k))} : PyVal) " if k else "")
+                           + f': {monad} PyVal := throw "PySrcUnsupported"')
+        if len(good) > 1:
+            out.append("mutual")
+        for n in good:
+            out.append(defs[n])
+        if len(good) > 1:
+            out.append("end")
         out.append("")
-    order = [n for n in order if n not in ctx.dispatchers]
+        for n in comp:
+            k = arities[n] - (1 if n in ctx.state_fns else 0)
+            ps = [f"a{i}" for i in range(k)]
+            envd = ("(env : PyRt.Env) " if n in ctx.uses_env else "") + ("(ext : PyRt.Oracle) " if n in ctx.uses_ext else "")
+            enva = (" env" if n in ctx.uses_env else "") + (" ext" if n in ctx.uses_ext else "")
+            out.append(f"/-- entry point: the fuel bounds the recursion depth by the size of the arguments -/")
+            if n in ctx.state_fns:
+                out.append(f"def {n} {envd}" + (f"({' '.join(ps)} : PyVal) " if ps else "") + f": {STATE_MONAD} PyVal := do\n"
+                           f"  {n}__fuel{enva} (PyTok.fuelOf (← get) [{', '.join(ps)}])" + "".join(" " + q for q in ps))
+            else:
+                out.append(f"def {n} {envd}" + (f"({' '.join(ps)} : PyVal) " if ps else "") + ": M PyVal :=\n"
+                           f"  {n}__fuel{enva} (PyRt.fuelOf [{', '.join(ps)}])" + "".join(" " + q for q in ps))
+            out.append("")
     out.append("/-- every translated function by name, for the `src.call` driver operation -/")
     out.append("def table : List (String × Nat × (List PyVal → M PyVal)) :=")
     rows = []
     for n in order:
         k = arities[n]
-        call = n + (" (PyRt.envOf e)" if n in ctx.uses_env else "") + "".join(f" a{i}" for i in range(k))
-        pats = ", ".join((["e"] if n in ctx.uses_env else []) + [f"a{i}" for i in range(k)])
-        kk = k + (1 if n in ctx.uses_env else 0)
+        if n in ctx.state_fns:                   # the tokenizer travels as the first argument and comes back with the result
+            call = "PyTok.runWire (" + n + (" (PyRt.envOf e)" if n in ctx.uses_env else "") + (" (PyRt.oracleOf x)" if n in ctx.uses_ext else "") \
+                + "".join(f" a{i}" for i in range(1, k)) + ") a0"
+        else:
+            call = n + (" (PyRt.envOf e)" if n in ctx.uses_env else "") + (" (PyRt.oracleOf x)" if n in ctx.uses_ext else "") \
+                + "".join(f" a{i}" for i in range(k))
+        pats = ", ".join((["e"] if n in ctx.uses_env else []) + (["x"] if n in ctx.uses_ext else []) + [f"a{i}" for i in range(k)])
+        kk = k + (1 if n in ctx.uses_env else 0) + (1 if n in ctx.uses_ext else 0)
         rows.append(f'  ("{n}", {kk}, fun (args : List PyVal) => (match args with | [{pats}] => {call} | _ => throw "PySrcArity" : M PyVal))')
     out.append("  [" + ",\n  ".join(r.strip() for r in rows) + "]")
     out.append("")
